@@ -5,6 +5,7 @@ import RsModel.Lemmas.StrictIn
 import RsModel.Lemmas.StrictOrder
 import RsModel.Lemmas.LinesTree
 import RsModel.Lemmas.ReplaceOrig
+import RsModel.Lemmas.WarmStrict
 /-!
 # C11 — produced source maps and chunk streams are well-formed
 -/
@@ -155,25 +156,44 @@ true positions; the combinator keeps the outer positions) ∘ the encoder writes
 theorem c11_map_strict (s : Src) (h : s.ModeHypC) (hs : s.StrictMaps) (hn : s.ids.Nodup) (σ : Store) (hc : Cold σ s.ids) (final : Bool)
     (hsmall : ∀ m ∈ chunkMs (s.stream ⟨true, true⟩ σ).1.evs, m.small) (sm : SMap) (hm : (getMap s ⟨true, final⟩ σ).1 = some sm) :
     (decode sm.mappings).Pairwise mlt
-    ∧ ∀ m ∈ decode sm.mappings, ∃ k, k < s.src.length ∧ adv startPos (s.src.take k) = ⟨m.gl, m.gc⟩ := by
-  have hm3 := Src.m3c s h hn σ σ hc hc
-  simp only [getMap] at hm
-  rw [mapOfEvs_mappings _ sm hm, decode_encode _ hsmall (linesOK_of_sorted _ 1 0 hm3.sorted)]
-  have hsub := keptFrom_sublist (chunkMs (s.stream ⟨true, true⟩ σ).1.evs) {}
-  have hinc : IncP s.src 0 s.src.length ((keptFrom {} (chunkMs (s.stream ⟨true, true⟩ σ).1.evs)).map fun m => (m.gl, m.gc)) :=
-    incP_sublist _ _ _ (hsub.map _) _ _ (Src.incC s h hs hn σ hc)
-  constructor
-  · have := incP_pairwise _ _ _ _ (Nat.le_refl _) hinc
-    rw [List.pairwise_map] at this
-    exact this
-  · intro m hmem
-    obtain ⟨k, _, hk, e⟩ := incP_lower _ _ _ _ (Nat.le_refl _) hinc (m.gl, m.gc) (List.mem_map.2 ⟨m, hmem, rfl⟩)
-    exact ⟨k, hk, e⟩
+    ∧ ∀ m ∈ decode sm.mappings, ∃ k, k < s.src.length ∧ adv startPos (s.src.take k) = ⟨m.gl, m.gc⟩ :=
+  getMap_strict s h hs hn σ hc final hsmall sm hm
 
 /-- non-vacuity: an OriginalSource in front of a SourceMapSource with a strictly sorted two-segment map -/
 example : (Src.concat (.cons (.orig [97, 59, 10, 98] [102]) (.cons (.sms [120, 32, 121] [103] ⟨[65, 65, 65, 65, 44, 69, 65, 65, 69], [[115]], [], [], none, none, none⟩ none none false) .nil))).StrictMaps := by
   simp only [Src.StrictMaps, SrcList.StrictMapsL]
   exact ⟨trivial, by decide, trivial⟩
+
+
+/-- **… and on warm caches** (the two-call history `map(); map()`, columns = true): `s` is a tree of the domain of C03 with
+CachedSource nodes at any depth and in any number (none beneath a ReplaceSource — K5), attached maps strictly sorted, the first
+`get_map` running on cold caches.  The second `get_map` — every outermost CachedSource answering from the map the first call stored,
+replayed through the map-driven splitter — returns a map whose decoded segments again stand at the positions of characters
+`k₁ < k₂ < …` of `source()`: strictly increasing, all before the end.  Chain: the second call is the `get_map` of the replay tree
+(`getMap_second`) ∘ the stored maps are strictly sorted because they were produced by `c11_map_strict` on the subtrees
+(`Src.warm_strict`) ∘ the replay tree is in the domain of C03 (`Src.warmF_NA`) ∘ `c11_map_strict` on the replay tree. -/
+theorem c11_map_twice_strict (s : Src) (σ : Store) (h : s.ModeHypC) (hst : s.StrictMaps) (hk : s.CachedOK) (hs : s.SmallF)
+    (hn : s.ids.Nodup) (hc : Cold σ s.ids) (f1 f2 : Bool)
+    (hsmall2 : ∀ m ∈ chunkMs ((s.warm ⟨true, true⟩).stream ⟨true, true⟩ []).1.evs, m.small)
+    (sm2 : SMap) (h2 : (getMap s ⟨true, f2⟩ (getMap s ⟨true, f1⟩ σ).2).1 = some sm2) :
+    (decode sm2.mappings).Pairwise mlt
+    ∧ ∀ m ∈ decode sm2.mappings, ∃ k, k < s.src.length ∧ adv startPos (s.src.take k) = ⟨m.gl, m.gc⟩ :=
+  getMap_twice_strict s σ h hst hk hs hn hc f1 f2 hsmall2 sm2 h2
+
+/-- non-vacuity: `ConcatSource[CachedSource(OriginalSource("a;b", "f")), RawSource("x")]` meets the structural hypotheses -/
+example : (Src.concat (.cons (.cached 0 (.orig [97, 59, 98] [102])) (.cons (.rawStr [120]) .nil))).ModeHypC
+    ∧ (Src.concat (.cons (.cached 0 (.orig [97, 59, 98] [102])) (.cons (.rawStr [120]) .nil))).StrictMaps
+    ∧ (Src.concat (.cons (.cached 0 (.orig [97, 59, 98] [102])) (.cons (.rawStr [120]) .nil))).CachedOK
+    ∧ (Src.concat (.cons (.cached 0 (.orig [97, 59, 98] [102])) (.cons (.rawStr [120]) .nil))).SmallF := by
+  simp only [Src.ModeHypC, SrcList.ModeHypsC, Src.StrictMaps, SrcList.StrictMapsL, Src.CachedOK, SrcList.CachedOKs, Src.SmallF, SrcList.SmallFs,
+    Src.strip, Src.src]
+  refine ⟨⟨⟨trivial, by decide, by decide⟩, trivial, trivial⟩, ⟨trivial, trivial, trivial⟩, ⟨trivial, trivial, trivial⟩, ?_, trivial, trivial⟩
+  have e : chunkMs ((Src.orig [97, 59, 98] [102]).stream { columns := true, final := true } []).fst.evs
+      = [⟨1, 0, some ⟨0, 1, 0, none⟩⟩, ⟨1, 2, some ⟨0, 1, 2, none⟩⟩] := by decide
+  rw [e]
+  intro m hm
+  simp only [List.mem_cons, List.mem_nil_iff, or_false] at hm
+  rcases hm with rfl | rfl <;> exact ⟨by decide, fun o ho => by cases ho; exact ⟨by decide, by decide, by decide, fun k hk => by cases hk⟩⟩
 
 
 /-! ## the map clause, columns = false -/
